@@ -501,8 +501,11 @@ class ConcurrentVector {
    * @return The iterator at the inserted position.
    **/
   iterator insert(const_iterator pos, const T& value) {
+    // value may refer to an element of this vector, which insertPartial shifts: copy it first.
+    T copy(value);
     auto it = insertPartial(pos);
-    new (&*it) T(value);
+    // The slot at pos holds a live (default-constructed or moved-from) object: assign, do not construct.
+    *it = std::move(copy);
     return it;
   }
 
@@ -514,7 +517,8 @@ class ConcurrentVector {
    **/
   iterator insert(const_iterator pos, T&& value) {
     auto it = insertPartial(pos);
-    new (&*it) T(std::move(value));
+    // The slot at pos holds a live (default-constructed or moved-from) object: assign, do not construct.
+    *it = std::move(value);
     return it;
   }
 
